@@ -5,7 +5,7 @@ import vrun
 from common import canon_errors
 from props import _vfamily
 
-LEVEL = "proof"
+LEVEL = "translation_validation"
 COQ_FILES = ["theories/Model/Validate.v"]
 FACT_GROUPS = ["F3", "F5", "F6", "F8"]
 ALLOWED_AXIOMS = []
